@@ -113,7 +113,7 @@ class FJSPSpec(SSpec):
                 out.append((f"jssp2x2-{ci}", fjsp_inst([2, 2], table, 4, 2)))
             # same machine twice for a job, and a 3x2 instance
             out.append(("jssp2x2-same", fjsp_inst([2, 2], [{0: 2}, {0: 1}, {0: 1}, {1: 3}], 4, 2)))
-            if tier == "thorough":
+            if tier != "quick":
                 out.append(("jssp3x2-a", fjsp_inst([2, 2, 2], [{0: 2}, {1: 1}, {1: 2}, {0: 2}, {0: 1}, {1: 3}], 6, 2)))
                 out.append(("jssp2x3-a", fjsp_inst([3, 3], [{0: 2}, {1: 1}, {2: 2}, {2: 1}, {0: 2}, {1: 3}], 6, 3)))
             return out
@@ -138,7 +138,7 @@ class FJSPSpec(SSpec):
                         table.append(row)
                     out.append((f"fjsp-{''.join(map(str, job_ops))}-{idx}", fjsp_inst(job_ops, table, 4, 2)))
                     idx += 1
-        if tier == "thorough":
+        if tier != "quick":
             out.append(("fjsp3x2", fjsp_inst([2, 2, 2], [{0: 2, 1: 3}, {1: 1}, {0: 1, 1: 1}, {0: 2}, {1: 2, 0: 3}, {0: 1}], 6, 2)))
         return out
 
@@ -189,7 +189,7 @@ class FFSPSpec(SSpec):
         for a, b in itertools.combinations_with_replacement(range(len(rows)), 2):
             out.append((f"ffsp2-{a}{b}", dict(run_time=[rows[a], rows[b]])))
         out.append(("ffsp3-012", dict(run_time=[rows[0], rows[1], rows[2]])))
-        if tier == "thorough":
+        if tier != "quick":
             out.append(("ffsp3-134", dict(run_time=[rows[1], rows[3], rows[4]])))
             out.append(("ffsp3-333", dict(run_time=[rows[3], rows[3], rows[3]])))
         return out
@@ -232,7 +232,7 @@ class SMTWTPSpec(SSpec):
             ("smt4-c", dict(job_due_time=[0, 10, 10, 10, 10], job_weight=[0, 1, 2, 3, 4], job_process_time=[0, 1, 1, 1, 1])),
             ("smt3-a", dict(job_due_time=[0, 1, 1, 1], job_weight=[0, 0.5, 0.25, 1], job_process_time=[0, 0.5, 0.25, 1])),
         ]
-        if tier == "thorough":
+        if tier != "quick":
             out.append(("smt6-a", dict(job_due_time=[0, 1, 2, 3, 2, 1, 4], job_weight=[0, 1, 2, 1, 3, 2, 1], job_process_time=[0, 1, 1, 2, 1, 2, 1])))
         return out
 
